@@ -1,2 +1,2 @@
 (* Everything executable: the files the extraction and the driver depend on. *)
-From AMS Require Export TablesTypes Tables RtTables PyStr Codec Gateway Version Show Ops Flush Persist.
+From AMS Require Export TablesTypes Tables RtTables PyStr Codec Gateway Version Show Ops Flush Persist Stream Mqtt Lifecycle.
